@@ -165,6 +165,17 @@ def check(case):
         res.label("program")
         if runcheck.typed_texts(prog):
             res.label("one-text-several-step-types")
+        if case.get("nested"):
+            res.label("nested-steps")
+            from ..harness import _all_step_lists
+            called = set(map(tuple, run.calls))
+            for f in prog["features"]:
+                for lst in _all_step_lists(f):
+                    for s_ in lst:
+                        subs = s_.get("sub") or []
+                        for a, b in zip(subs, subs[1:]):
+                            if a["o"] == "pending" and any(c[1] == a["uid"] for c in called):
+                                res.label("nested-steps:pending-sub-step-with-followers")
     else:
         raise ValueError(kind)
     return res
@@ -256,12 +267,23 @@ def rerun_case(draw):
             "cut2": draw(st.integers(0, n)), "as_row": draw(st.booleans()), "wip": draw(st.booleans())}
 
 
+@st.composite
+def nested_program(draw):
+    """Steps that execute other steps (context.execute_steps()): the sub-steps are step functions of the scenario as
+    well -- after the first sub-step that does not pass (failed, error, PENDING) no further one is called."""
+    prog = draw(gen.program_st(faults=False, max_features=2, outcomes=["pass", "pass", "pass", "fail", "undefined"],
+                               cfg=gen.cfg_st(flags=(), p_tags=0.3)))
+    n = draw(gen.nestify(prog, sub_outcomes=("pass", "pass", "fail", "raise", "pending", "pending"), p=2, strip_wip=True))
+    return {"kind": "program", "program": prog, "nested": n}
+
+
 def explore(rec):
     quick = rec.tier == "quick"
     rec.enum("all-sequences<=4", enumeration())
     rec.hyp("random-sequences", random_seq(), 4000 if quick else 120000)
     rec.hyp("continue-after-failed", cont_seq(), 800 if quick else 20000)
     rec.hyp("rerun-same-objects", rerun_case(), 1200 if quick else 30000)
+    rec.hyp("nested-steps", nested_program(), 1200 if quick else 30000)
     rec.hyp("random-programs", gen.program_st(faults=False, typed=True).map(lambda p: {"kind": "program", "program": p}),
             1500 if quick else 40000)
 
@@ -270,7 +292,7 @@ def required_labels(tier):
     req = ["depth:0", "depth:1", "depth:2", "row", "plain", "wip", "dry", "async", "cont", "rerun", "program",
            "bg_placeholders", "first:convert_key", "one-text-several-step-types", "step-hook-raises:before_step",
            "step-hook-raises:after_step", "step-hook-raises:passing-step-with-followers",
-           "step-function-returns-a-value"]
+           "step-function-returns-a-value", "nested-steps", "nested-steps:pending-sub-step-with-followers"]
     for o in OUTCOMES:
         req += ["first:" + o, "middle:" + o, "last:" + o]
     return req
